@@ -204,6 +204,7 @@ func runStoreScenario(sc *storeScenario, out *bufio.Writer) (hung bool) {
 	if err != nil {
 		panic(err)
 	}
+	pageCursor := map[string]uint64{}
 	pick := func(x interface{}) storage.Engine {
 		if x.(string) == "b" {
 			return b
@@ -337,6 +338,26 @@ func runStoreScenario(sc *storeScenario, out *bufio.Writer) (hung bool) {
 				} else {
 					ob = []interface{}{"steps", nil, ords}
 				}
+			case "scanpage":
+				// ONE page of an iteration that is kept open across other operations: ["scanpage", which, count]; the cursor
+				// of store `which` lives in the harness ("scanreset" starts over). Observation: ["page", cursor_in, cursor_out, keys]
+				s := pick(op[1])
+				w := op[1].(string)
+				var keys []string
+				cin := pageCursor[w]
+				cout, err := s.Scan(cin, int(num(op[2])), func(e storage.Entry) bool {
+					keys = append(keys, hex.EncodeToString([]byte(e.Key())))
+					return true
+				})
+				if err != nil {
+					ob = []interface{}{"page", cin, nil, err.Error()}
+				} else {
+					pageCursor[w] = cout
+					ob = []interface{}{"page", cin, cout, keys}
+				}
+			case "scanreset":
+				pageCursor[op[1].(string)] = 0
+				ob = []interface{}{"reset"}
 			case "scanall":
 				s := pick(op[1])
 				count := int(num(op[2]))
